@@ -264,4 +264,9 @@ theorem C01_driver_shape_translated :
   intro m
   cases m <;> simp only [Hcu.armRow] <;> exact ⟨by decide, by decide⟩
 
+/-- every unit of a network has its own driver context (the model keeps one `Hcu.St` per hydraulic unit and nothing shared
+with the other units), and every configured entry with a known (vendor, product) pair is built with its own addresses -/
+theorem C01_units_do_not_share_state : Consts.authorityUnitsHaveTheirOwnContext = true ∧ Consts.authorityBuildsEveryKnownEntry = true := by
+  decide
+
 end Glonax.Thm.C01
